@@ -153,6 +153,7 @@ func genResp(r *Rng, tier string, p *Plan) {
 	if park {
 		p.Add(Op{K: "unpark", At: now + 500_000})
 	}
+	p.N["api_slash"] = int64(PickOf(r, 0, 0, 0, 1))
 	p.SortOps()
 }
 
